@@ -244,7 +244,8 @@ def c04_function(n: int, k: int, t0: int, t1: int, r: int, flavour: int, nsdepth
 
 
 # ---------------------------------------------------------------- class-level facts: base, properties, enums, operators
-BASES = [None, ("Base", ()), ("Base", ("other",)), ("TBase", ("ns",), "ns::Other")]
+BASES = [None, ("Base", ()), ("Base", ("other",)), ("TBase", ("ns",), "ns::Other"),
+         ("QBase", ("ns",), "const ns::Other&"), ("QBase", ("ns",), "double*")]          # 4, 5: qualifiers inside the base's template arguments
 
 
 def check_class(base, nprops, nenums, virt, tmpl, ops, nsdepth):
@@ -255,7 +256,7 @@ def check_class(base, nprops, nenums, virt, tmpl, ops, nsdepth):
     if b:
         bq = "::".join(b[1] + (b[0],))
         if len(b) == 3:
-            btxt, bcpp = " : %s<%s>" % (bq, "T" if tmpl else b[2]), None
+            btxt, bcpp = " : %s<%s>" % (bq, "T" if (tmpl and base < 4) else b[2]), None
         else:
             btxt, bcpp = " : " + bq, bq
     props = [("int", "count", False), ("const ns::Other", "fixed", True), ("T" if tmpl else "double", "val", False)][:nprops]
@@ -287,7 +288,10 @@ def check_class(base, nprops, nenums, virt, tmpl, ops, nsdepth):
         if tmpl != 3 and ce["module"] != want_mod:
             problems.append("%s registered in %s, expected %s" % (cname, ce["module"], want_mod))
         if b and len(b) == 3:
-            bexp = "::".join(b[1] + (b[0],)) + "<%s>" % (inst if tmpl else b[2])
+            barg = (inst if (tmpl and base < 4) else b[2])
+            if barg.endswith("*"):
+                barg = "std::shared_ptr<%s>" % barg[:-1]
+            bexp = "::".join(b[1] + (b[0],)) + "<%s>" % barg
         else:
             bexp = bcpp
         want = [ccpp] + ([bexp] if bexp else []) + ["std::shared_ptr<%s>" % ccpp]
@@ -357,6 +361,19 @@ def c04_class_typedef(base: int, nprops: int, nenums: int, place: int, ops: int,
     return ok
 
 
+def c04_kf_parent_qualifiers(which: int) -> bool:
+    """
+    Witness replay for known finding C04-parent-arg-qualifiers (const / & / * inside the template arguments of a base class).
+    pre: 0 <= which <= 1
+    post: _
+    """
+    which = pick(which, 0, 2)
+    with concrete():
+        ok = check_class(4 + which, 0, 0, 0, 0, 0, 1)
+    reached()
+    return ok
+
+
 def c04_argname(name: str) -> bool:
     """
     Argument names are copied verbatim into the lambda parameter, the call and py::arg (one symbolic spelling).
@@ -401,5 +418,6 @@ def conds(tier):
                 bounds="4 base forms x 0-3 properties x 0-2 class enums x {plain, enumerated template} x 3 operator sets%s" % (" x virtual x namespace depth 0-2" if not q else "; virtual / namespace depth derived")),
         xh.Cond(M, "c04_class_typedef", t(300, 1500), path_timeout=60, kind=sb, examples=["base=0, nprops=1, nenums=1, place=1, ops=0, nsdepth=0", "base=2, nprops=2, nenums=2, place=0, ops=1, nsdepth=2", "base=3, nprops=3, nenums=1, place=1, ops=2, nsdepth=2"],
                 bounds="typedef'd instantiation in the template's namespace / in a nested namespace x 4 base forms x 0-2 class enums x 3 operator sets x namespace depth 0-2%s" % (" x 0-3 properties" if not q else "; properties derived")),
+        xh.Cond(M, "c04_kf_parent_qualifiers", 60, path_timeout=60, kind=sb, bounds="witness of a listed known finding", needs_confirm=False),
         xh.Cond(M, "c04_argname", t(120, 600), examples=["name='pose'"], bounds="all argument names of length <= 6"),
     ]
